@@ -39,7 +39,7 @@ def main():
     for sid in args:
         ps = [sid[:3]] if props is None else ([f"C{i:02d}" for i in range(1, 21)] if props == "all" else props.split(","))
         jobs.append((sid, ps, verbose))
-    with ThreadPoolExecutor(12) as ex:
+    with ThreadPoolExecutor(int(os.environ.get("SC_JOBS", "12"))) as ex:
         for sid, out in ex.map(one, jobs):
             for p, v in out.items():
                 print(sid, p, v if not isinstance(v, tuple) else f"rc={v[0]} {v[1]}")
